@@ -12,7 +12,7 @@ func FullLeaves() []*Node {
 		Range("n", Int(2), Open(), false), Range("s", Word("aa"), Word("zz"), true), Range("n", Float("1.5"), Float("2.5"), true),
 		List("s", Word("x"), Word("y")), List("n", Int(1), Int(2), Phrase("z z")),
 		// repeated values and equal bounds
-		List("s", Word("x"), Word("x")), Range("n", Int(5), Int(5), true),
+		List("s", Word("x"), Word("x")), Range("n", Int(5), Int(5), true), List("s", Word("p"), Word("q"), Int(3), Phrase("r s")),
 		// field groups: an arbitrary expression as the value of a field
 		Group("g", Or(Or(T(Word("x")), T(Word("y"))), T(Wild("z*")))), Group("g", And(T(Word("x")), T(Int(2)))), Group("g", Not(T(Word("x")))),
 		Group("g", Or(T(Word("x")), Or(T(Word("y")), T(Int(3))))), Group("g", Or(T(Word("x")), F("h", Word("y")))), Group("g", Jux(T(Word("x")), MustNot(T(Word("y"))))),
